@@ -65,6 +65,32 @@ Proof.
   discriminate.
 Qed.
 
+(* ---------------------------------------------------------------- nothing is lost: the partial tree is freed *)
+
+(* the ledger version is import_public_x, and after ANY outcome - every parser result, fault, junk, content -
+   no detached tree is left allocated: the part built before the failure (whatever the failing call left in
+   it) has been released *)
+Theorem import_failure_frees_partial_tree_lemma
+        (key_err : ecode -> ierr) (junk : node -> node) (l : xload) (root : node) (f : fault) :
+  l_lost (fst (import_public_x_ledger key_err junk true l root f)) = []
+  /\ (l_root (fst (import_public_x_ledger key_err junk true l root f)),
+      snd (import_public_x_ledger key_err junk true l root f)) = import_public_x key_err junk l root f.
+Proof.
+  destruct l as [| | y]; cbn [import_public_x_ledger import_public_x fst snd l_lost l_root]; try (split; reflexivity).
+  destruct (import_x key_err junk y NNull f) as [r [f' [|e]]]; cbn [fst snd l_lost l_root]; split; reflexivity.
+Qed.
+
+(* without the release (seeded C09-11) the partial tree  p: 1  of {p: 1, 'a[': 2, z: 3} is lost *)
+Theorem model_variant_without_free_refuted_lemma :
+  exists l root f,
+    is_ok (snd (import_public_x_ledger key_err_DO91 (fun n => n) false l root f)) = false /\
+    l_lost (fst (import_public_x_ledger key_err_DO91 (fun n => n) false l root f)) <> [].
+Proof.
+  exists (XDocument (XMapping [(XScalar [112] YPlain, XScalar [49] YPlain);
+                               (XScalar [97; 91] YDouble, XScalar [50] YPlain)]%N)), NNull, None.
+  split; [vm_compute; reflexivity|vm_compute; discriminate].
+Qed.
+
 (* ---------------------------------------------------------------- the model before DO90 / DO91: refuted *)
 Definition b (s : list N) : bytes := s.
 Definition pl (s : list N) : xnode := XScalar s YPlain.
